@@ -483,7 +483,7 @@ def case_file(ctx, case):
         start, end, freq = cfg['window']
         kw = dict(frequency=freq, start=start, end=end, write_count=cfg['write_count'], plan=cfg['plan'])
         if rng.random() < 0.5:
-            kw['filemode'] = 'a'
+            kw['filemode'] = rng.choice(['a', 'a', 'at', 'a+'])          # every spelling of append mode
         own_writer = rng.random() < 0.35
         if own_writer:
             ctx.count('file_collectors_with_their_own_write_records')
